@@ -97,8 +97,8 @@ func EncodeSuci(imsi []byte, mncLen int) *nasType.MobileIdentity5GS {
 	//mcc & mnc
 	suci.Buffer[1] = hexCharToByte(imsi[1])<<4 | hexCharToByte(imsi[0])
 	if mncLen > 2 {
-		suci.Buffer[2] = hexCharToByte(imsi[3])<<4 | hexCharToByte(imsi[2])
-		suci.Buffer[3] = hexCharToByte(imsi[5])<<4 | hexCharToByte(imsi[4])
+		suci.Buffer[2] = hexCharToByte(imsi[5])<<4 | hexCharToByte(imsi[2])
+		suci.Buffer[3] = hexCharToByte(imsi[4])<<4 | hexCharToByte(imsi[3])
 		msin = imsi[6:]
 	} else {
 		suci.Buffer[2] = 0xf<<4 | hexCharToByte(imsi[2])
